@@ -171,6 +171,27 @@ def r4_scanner(prog, run):
             pos_ok = t[0] == "agg" and t[3][0][:2] == ("var", ctr[0])
             tests = byte_tests(ex["bb"])
             seen.add(k)
+            # the hit is taken whenever its pattern fits: on the other edge of every length guard of this exit, fewer than k bytes remain
+            if k in want:
+                for (s_, d, tk) in guards.guards_of(b, ex["bb"]):
+                    if not (d[0] == "bin" and d[1] in ("Le", "Lt", "Ge", "Gt") and any(isinstance(y, tuple) and y[:1] == ("un",) and y[1] == "PtrMetadata" or (isinstance(y, tuple) and y[:1] == ("call",) and str(y[1]).endswith("len")) for y in sym.walk(d))):
+                        continue
+                    if not any(isinstance(y, tuple) and y[:2] == ("var", ctr[0]) for y in sym.walk(d)):
+                        continue
+                    sw = b["blocks"][s_]["term"]
+                    if sw["k"] != "switch":
+                        continue
+                    succ = [tg for _v, tg in sw.get("arms") or []] + ([sw["otherwise"]] if sw.get("otherwise") is not None else [])
+                    tr_ = guards.truth(tk)
+                    zero = [tg for v_, tg in sw.get("arms") or [] if v_ == "0"]
+                    if tr_ is None or len(zero) != 1 or sw.get("otherwise") is None:
+                        continue
+                    # boolean switch: arm "0" is the false edge, `otherwise` the true edge; the exit lies behind the edge `tk` names
+                    other = [sw["otherwise"]] if tr_ is False else zero
+                    for tg in other:
+                        good_, _h = cx.prove_le0(ln - li - A.Lin(k - 1), tg)
+                        run.check(good_, "R4", "scanner hit len=%s taken whenever it fits (guard on i+%s)" % (k, "".join(ch for ch in sym.show(d) if ch.isdigit())[:2] or "?"), "the length guard fails only when fewer than %d bytes remain" % k,
+                                  "the %d-byte start-code test is skipped although %d bytes may remain (length guard `%s`): a %d-byte start code at the very end of the data is not recognised as such" % (k, k, sym.show(d)[:80], k), mir.loc_of(nd))
             run.check(pos_ok and k in want and tests == want[k], "R4", "scanner hit len=%s" % k, "returned only under bytes %s at i" % sorted(want.get(k, ())),
                       "a start code of length %s at position i is reported under byte tests %s (expected %s)" % (k, sorted(tests), sorted(want.get(k, ()))), mir.loc_of(nd))
         elif v[0] == "agg" and str(v[1]).endswith("Option::None"):
